@@ -55,6 +55,9 @@ def check_script(script, source, emit, case, run_kw=None):
         return
     assigns = [(n, p) for k, n, p in hs if k == "assign"]
     ndef = sum(1 for k, _, _ in hs if k == "define")
+    if not assigns:
+        emit({"v": "skip", "why": "script without any assignment (not a transformation script)"})
+        return
     s1, ts = eng.call(generate_sdmx, script, "MD", "TS1")
     pers = {p for _, p in assigns}
     bucket = (f"{source}/rulesets={'ruleset' in script}/udos={'define operator' in script}/"
